@@ -1503,6 +1503,57 @@ def no_panic(chk, prog):
     chk.floor("panic sites in the decoders", len(sites), 4)
 
 
+def _at_empty(d):
+    """Value of an integer expression over `x.len()` and constants when the length is 0 (None if it depends on anything else)."""
+    d = panics._strip(d)
+    if not isinstance(d, tuple) or not d:
+        return None
+    if d[0] == "lit" and isinstance(d[1], int) and not isinstance(d[1], bool):
+        return d[1]
+    if d[0] == "call" and str(d[1]).endswith("::len"):
+        return 0
+    if d[0] == "field" and len(d) > 2 and d[2] == 0 and isinstance(d[1], tuple) and d[1] and d[1][0] == "bin":
+        return _at_empty(d[1])
+    if d[0] == "bin" and len(d) >= 4:
+        a, b = _at_empty(d[2]), _at_empty(d[3])
+        if a is None or b is None:
+            return None
+        op = str(d[1]).replace("WithOverflow", "").replace("Unchecked", "")
+        try:
+            return {"Add": lambda: a + b, "Sub": lambda: a - b, "Mul": lambda: a * b, "Div": lambda: a // b, "Rem": lambda: a % b,
+                    "Shl": lambda: a << b, "Shr": lambda: a >> b}[op]()
+        except (KeyError, ZeroDivisionError, ValueError):
+            return None
+    return None
+
+
+def encoders_accept_empty(chk, prog):
+    """R4.empty_input: the encoders' size arithmetic holds for the empty input too — no checked `len - c` / `len / k - c` with a constant `c`
+    that no comparison guards (the "ceiling" idiom `(len - 1) / 3 + 1` is only valid for len >= 1: on the empty input it panics in a debug
+    build and asks for an absurd allocation in a release build).  RFC 4648's first test vector is BASE64("") = ""."""
+    entries = [p for p in prog.bodies if p.endswith("Base64Encode>::encode") or p.endswith("PercentEncode>::percent_encode") or p.endswith("SHA1Hash>::hash")]
+    chk.floor("encoder entry points", len(entries), 3)
+    bodies, sites = panics.inventory(prog, entries)
+    n = 0
+    for s_ in sites:
+        if not (s_.kind == "assert" and s_.what == "overflow:Sub") or len(s_.operands) < 2:
+            continue
+        lhs, rhs = panics._strip(s_.operands[0]), panics._strip(s_.operands[1])
+        if not (isinstance(rhs, tuple) and rhs and rhs[0] == "lit" and isinstance(rhs[1], int) and rhs[1] > 0):
+            continue
+        if not core.desc_contains(lhs, lambda y: y[0] == "call" and str(y[1]).endswith("::len")):
+            continue
+        at0 = _at_empty(lhs)
+        if at0 is None or at0 >= rhs[1]:
+            continue        # not a function of the length alone, or large enough when the length is 0 (SHA-1's padded size minus 8)
+        n += 1
+        how, why = panics.try_discharge(prog, s_)
+        chk.ob("R4.empty_input", s_.body.path, f"`{panics.short_desc(lhs)} - {rhs[1]}` cannot underflow", how is not None,
+               f"the length arithmetic subtracts {rhs[1]} from a length that can be 0 ({why or 'no guard on the length dominates it'}): the empty input panics / over-allocates",
+               where=s_.where())
+    chk.ob("R4.empty_input", "encoders", "subtractions from a length in the encoders examined", True, f"{n} site(s) of the form len - constant")
+
+
 def run(chk):
     prog = chk.use(core.load("A", fresh=(chk.tier == "thorough")))
     with open(os.path.join(ORACLES, "constants.json")) as fh:
@@ -1530,3 +1581,4 @@ def run(chk):
     percent(chk, prog, orc)
     dates(chk, prog, orc)
     no_panic(chk, prog)
+    encoders_accept_empty(chk, prog)
